@@ -10,6 +10,7 @@ use serde_json::{json, Value};
 mod afftree;
 mod arena;
 mod distill;
+mod format;
 mod history;
 mod linalg;
 mod schema;
@@ -45,6 +46,7 @@ fn run_script(sc: &Value, id: usize, out: Out) {
         "distill" => distill::run_distill(sc, id, out),
         "arch" => distill::run_arch(sc, id, out),
         "npz" => distill::run_npz(sc, id, out),
+        "format" => format::run(sc, id, out),
         _ => out(json!({"fam": fam, "sc": id, "ev": "unknown_family"})),
     }
 }
